@@ -396,6 +396,14 @@ def deserialize_bytes(stream, **kwargs):
 
     return stream.read(length)
 
+def _hashable(value):
+    """ a sequence is always decoded as a list, but a list cannot be
+    used as a mapping key or set member: it must have been a tuple
+    """
+    if isinstance(value, list):
+        return tuple(_hashable(v) for v in value)
+    return value
+
 def deserialize_map(stream, **kwargs):
     length = deserialize_value(stream, **kwargs)
 
@@ -409,7 +417,7 @@ def deserialize_map(stream, **kwargs):
     for i in range(length):
         k = deserialize_value(stream, **kwargs)
         v = deserialize_value(stream, **kwargs)
-        obj[k] = v
+        obj[_hashable(k)] = v
 
     return obj
 
@@ -442,7 +450,7 @@ def deserialize_set(stream, **kwargs):
     if length > MAX_ARRAY_LENGTH:
         raise ValueError("set length too large: %d" % length)
 
-    obj = set([deserialize_value(stream, **kwargs) for i in range(length)])
+    obj = set([_hashable(deserialize_value(stream, **kwargs)) for i in range(length)])
 
     return obj
 
